@@ -517,9 +517,9 @@ def kinds(tier):
         Kind("enum-date-offsets", run_date_block, enumerate=enum_date_blocks,
              exhaustive=True, hash_cases=False),
         Kind("path-lists", run_paths, strategy=gen_paths,
-             examples={"quick": 6000, "thorough": 600000}),
+             examples={"quick": 6000, "thorough": 300000}),
         Kind("texts", run_text, strategy=gen_text,
-             examples={"quick": 10000, "thorough": 1000000}),
+             examples={"quick": 10000, "thorough": 500000}),
         Kind("dates", run_date, strategy=gen_date(),
-             examples={"quick": 15000, "thorough": 2000000}),
+             examples={"quick": 15000, "thorough": 1000000}),
     ]
